@@ -130,6 +130,14 @@ where
             }));
         }
 
+        let available = data.bytes().len();
+        if payload_offset > available || (!last && next_offset > available) {
+            return Some(Err(Error {
+                kind: ErrorKind::InsufficientSize,
+                pos: self.pos,
+            }));
+        }
+
         let data = if !last {
             let (data, next_data) = data.split(next_offset);
             self.data = Some(next_data);
